@@ -31,6 +31,17 @@ Theorem C05_sql_supported_methods_documented :
 Proof. exact sql_supported_documented_current. Qed.
 Print Assumptions C05_sql_supported_methods_documented.
 
+(* a constant operand: for every supported method other than the four whose extra arguments must be literals (around, trimstr,
+   is_in, mapv: indexed with their flags above), the same holds for EVERY assignment of column / literal flags to the operands
+   (x.maximum(0), (2.5).minimum(x), 2.5 + x ...) *)
+Theorem C05_sql_supported_methods_documented_with_literal_operands :
+  forall (mf : string -> Q -> option Q) (mf2 : string -> Q -> Q -> option Q) (d : dialect) (m : string) (lits0 : list bool),
+  In (m, lits0) (supported_sql d) -> str_in m literal_arg_methods = false ->
+  forall lits args r, pg_is_nan_guard d m args = true -> spec_method mf mf2 m args = Some r ->
+    exists r', sql_eval mf mf2 current d m lits args = Some r' /\ sv_eqv r' r.
+Proof. exact sql_supported_documented_current_any_literals. Qed.
+Print Assumptions C05_sql_supported_methods_documented_with_literal_operands.
+
 (* the same for every variant of the templates (vr is read off the code on every run): the former templates only outside the
    argument classes of the repaired defects *)
 Theorem C05_sql_supported_methods_documented_any_variant :
